@@ -149,6 +149,16 @@ class Builtin(SymObj):
         self.fn = fn
 
     def py_call(self, I, args, kwargs):
+        try:
+            import inspect
+
+            inspect.signature(self.fn).bind(I, *args, **kwargs)
+        except TypeError as e:
+            # the model of this builtin does not cover the way it is called (more arguments, an unknown keyword): outside the
+            # modelled subset, not an engine failure
+            raise OutOfSubset(f"{self.name}(...) called in a way its model does not cover: {e}")
+        except ValueError:
+            pass
         return self.fn(I, *args, **kwargs)
 
     def __repr__(self):
